@@ -181,6 +181,18 @@ def _act(r, i, e, occ):
             signal.signal(signal.SIGSEGV, signal.SIG_DFL)
             os.kill(os.getpid(), signal.SIGSEGV)
         os._exit(9)
+    if a == 'nested_run':
+        # a test of test infrastructure: drives another in-process run of the runner (as the
+        # runner's own tests do); when that run is over the std streams must again be the
+        # objects it found - here the OUTER run's capture streams
+        r.emit([r.simpid, 'fault', 'nested_run', i, 0])
+        before = sys.stdout, sys.stderr
+        try:
+            _nested_run(e)
+        finally:
+            if sys.stdout is not before[0] or sys.stderr is not before[1]:
+                r.emit([r.simpid, 'fault', 'nested_not_restored', i, 0])
+        return
     if a == 'close_stdout':
         # a test that closes sys.stdout (under --buffer: the runner's capture stream)
         r.emit([r.simpid, 'fault', 'replace_stdout', i, 0])
@@ -226,6 +238,26 @@ def _act(r, i, e, occ):
         r.extra['calls'][e['fn']](e)
         return
     raise RuntimeError('unknown plan action %r' % (a,))
+
+
+def _nested_run(e):
+    rmod = sys.modules['zope.testrunner.runner']
+    Runner = rmod.Runner
+    if Runner.__name__.endswith('RecordingRunner'):
+        Runner = Runner.__mro__[1]        # the runner's own class: the harness records the outer
+
+    class Inner(unittest.TestCase):
+        def test_inner(self):
+            sys.stdout.write('inner-out\n')
+            sys.stderr.write('inner-err')
+            if e.get('inner_replaces') and e.get('buffer', True):
+                # (only a buffered run is responsible for what its tests leave installed)
+                import io
+                sys.stdout = io.StringIO()
+
+    suite = unittest.defaultTestLoader.loadTestsFromTestCase(Inner)
+    args = ['nested', '-k'] + (['--buffer'] if e.get('buffer', True) else [])
+    Runner([], args, found_suites=[suite]).run()
 
 
 # ---------------------------------------------------------------------------------------
